@@ -24,8 +24,12 @@ entry point (`TryFrom<&[u8]>`, `TryFrom<&str>`, both `FromStr`):
   (`decoded_fields`).
 
 The full theorems (with `Spec.V1.Ipv6Text`, the RFC 4291 grammar, in place of
-`V1.ip6Model`) follow from these by rewriting with `StdNet.parseIpv6_iff_text` once that
-equivalence is available; they are not stated here.
+`V1.ip6Model`) follow from these by rewriting with `StdNet.parseIpv6_iff_text`
+(`line_iff_text`); they are stated at the end of this file, one per entry point:
+`bytes_accept_iff`, `str_accept_iff`, `fromStrHeader_accept_iff`,
+`fromStrAddresses_accept_iff`, together with `ipv6Text_functional` (one text denotes one
+address) and the panic-aware forms `bytesP_accept_iff`, `strP_accept_iff` (the real entry
+points return normally, and return `Ok` exactly on those inputs).
 -/
 
 namespace C01
@@ -286,5 +290,100 @@ theorem str_accept_iff (x : B) (hx : Utf8.valid x = true) (h : V1.Header) :
       Spec.V1.Line Spec.V1.Ipv6Text h.header h.addresses := by
   rw [str_accept_iff_partial x hx]
   simp only [line_iff_text]
+
+/-- **C01 (`FromStr for Header`).** `"…".parse::<Header>()` on a valid UTF-8 string succeeds
+with result `h` if and only if the string starts with a well-formed PROXY v1 line (RFC 4291
+text for the IPv6 addresses) of at most 107 bytes; `h` reports exactly that line and the
+addresses it denotes. -/
+theorem fromStrHeader_accept_iff (x : B) (hx : Utf8.valid x = true) (h : V1.Header) :
+    V1.fromStrHeader x = .ok h ↔ ∃ rest, x = h.header ++ rest ∧ h.header.length ≤ 107 ∧
+      Spec.V1.Line Spec.V1.Ipv6Text h.header h.addresses := by
+  rw [fromStrHeader_accept_iff_partial x hx]
+  simp only [line_iff_text]
+
+/-- **C01 (`FromStr for Addresses`).** `"…".parse::<Addresses>()` on a valid UTF-8 string
+succeeds with result `a` if and only if the string starts with a well-formed PROXY v1 line
+(RFC 4291 text for the IPv6 addresses) of at most 107 bytes that denotes `a`. -/
+theorem fromStrAddresses_accept_iff (x : B) (hx : Utf8.valid x = true) (a : V1.Addresses) :
+    V1.fromStrAddresses x = .ok a ↔
+      ∃ hdr rest, x = hdr ++ rest ∧ hdr.length ≤ 107 ∧ Spec.V1.Line Spec.V1.Ipv6Text hdr a := by
+  rw [fromStrAddresses_accept_iff_partial x hx]
+  simp only [line_iff_text]
+
+/-- **C01 (decoding is a function of the text).** The RFC 4291 grammar is functional: one
+text denotes at most one address, so "the addresses the line denotes" in the theorems
+above is unambiguous for TCP6 as well. -/
+theorem ipv6Text_functional {s : B} {a b : Ip6}
+    (ha : Spec.V1.Ipv6Text s a) (hb : Spec.V1.Ipv6Text s b) : a = b := by
+  have h1 := (StdNet.parseIpv6_iff_text s a).mpr ha
+  have h2 := (StdNet.parseIpv6_iff_text s b).mpr hb
+  rw [h1] at h2
+  exact Option.some.inj h2
+
+/-- **C01 (panic-aware, bytes).** The link to the panic-aware model of `TryFrom<&[u8]>`:
+it never panics, and returns `Ok(h)` exactly on the inputs that start with a well-formed
+line of at most 107 bytes of valid UTF-8, reporting that line and its addresses. -/
+theorem bytesP_accept_iff (x : B) (h : V1.Header) :
+    V1.parseBytesP x = .val (.ok h) ↔ ∃ rest, x = h.header ++ rest ∧ h.header.length ≤ 107 ∧
+      Utf8.valid h.header = true ∧ Spec.V1.Line Spec.V1.Ipv6Text h.header h.addresses := by
+  rw [V1.parseBytes_no_panic, ← bytes_accept_iff]
+  exact ⟨fun e => Outcome.val.inj e, fun e => congrArg _ e⟩
+
+/-- **C01 (panic-aware, text).** The same for the panic-aware model of `TryFrom<&str>` on
+every valid UTF-8 string. -/
+theorem strP_accept_iff (x : B) (hx : Utf8.valid x = true) (h : V1.Header) :
+    V1.parseStrP x = .val (.ok h) ↔ ∃ rest, x = h.header ++ rest ∧ h.header.length ≤ 107 ∧
+      Spec.V1.Line Spec.V1.Ipv6Text h.header h.addresses := by
+  rw [V1.parseStr_no_panic x hx, ← str_accept_iff x hx]
+  exact ⟨fun e => Outcome.val.inj e, fun e => congrArg _ e⟩
+
+/-- Every input is either rejected or accepted by the real (panic-aware) byte entry point
+— it never panics — and acceptance is decided by the grammar alone. -/
+theorem bytesP_val_or_error (x : B) :
+    (∃ h, V1.parseBytesP x = .val (.ok h)) ∨ (∃ e, V1.parseBytesP x = .val (.error e)) := by
+  rw [V1.parseBytes_no_panic]
+  cases V1.parseBytes x with
+  | ok h => exact .inl ⟨h, rfl⟩
+  | error e => exact .inr ⟨e, rfl⟩
+
+/-! ### Non-vacuity of the additions -/
+
+/-- `PROXY TCP6 ::1 ::2 80 443\r\n` -/
+private def tcp6line : B :=
+  [0x50,0x52,0x4F,0x58,0x59,0x20,0x54,0x43,0x50,0x36,0x20,0x3A,0x3A,0x31,0x20,0x3A,0x3A,0x32,0x20,
+   0x38,0x30,0x20,0x34,0x34,0x33,0x0D,0x0A]
+private def one6 : Ip6 := ⟨[0, 0, 0, 0, 0, 0, 0, 0, 0, 0, 0, 0, 0, 0, 0, 1], rfl⟩
+private def two6 : Ip6 := ⟨[0, 0, 0, 0, 0, 0, 0, 0, 0, 0, 0, 0, 0, 0, 0, 2], rfl⟩
+private def tcp6hdr : V1.Header :=
+  ⟨tcp6line, .tcp6 { srcAddr := one6, srcPort := 80, dstAddr := two6, dstPort := 443 }⟩
+
+/-- `::1` is an RFC 4291 text of the address `0…01` (hypothesis of `ipv6Text_functional`). -/
+example : Spec.V1.Ipv6Text [0x3A, 0x3A, 0x31] one6 :=
+  (StdNet.parseIpv6_iff_text _ _).mp (by decide)
+
+/-- … and, by functionality, of no other address. -/
+example : ¬ Spec.V1.Ipv6Text [0x3A, 0x3A, 0x31] two6 := fun h =>
+  absurd (ipv6Text_functional h ((StdNet.parseIpv6_iff_text _ one6).mp (by decide))) (by decide)
+
+set_option maxRecDepth 8000 in
+/-- The TCP6 line followed by `GET` is valid UTF-8 and accepted by both `FromStr` impls;
+the iff then yields a grammar derivation with RFC 4291 address texts. -/
+example : Utf8.valid (tcp6line ++ [0x47, 0x45, 0x54]) = true ∧
+    V1.fromStrHeader (tcp6line ++ [0x47, 0x45, 0x54]) = .ok tcp6hdr ∧
+    V1.fromStrAddresses (tcp6line ++ [0x47, 0x45, 0x54]) = .ok tcp6hdr.addresses := by decide
+
+set_option maxRecDepth 8000 in
+example : ∃ rest, tcp6line ++ [0x47, 0x45, 0x54] = tcp6hdr.header ++ rest ∧ tcp6hdr.header.length ≤ 107 ∧
+    Spec.V1.Line Spec.V1.Ipv6Text tcp6hdr.header tcp6hdr.addresses :=
+  (fromStrHeader_accept_iff _ (by decide) tcp6hdr).mp (by decide)
+
+set_option maxRecDepth 8000 in
+example : V1.parseBytesP (tcp6line ++ [0x47, 0x45, 0x54]) = .val (.ok tcp6hdr) := by
+  rw [V1.parseBytes_no_panic]; exact congrArg _ (by decide)
+
+/-- The panic-aware text entry point accepts `PROXY UNKNOWN\r\nGET`, via the grammar. -/
+example : V1.parseStrP (unk ++ [0x47, 0x45, 0x54]) = .val (.ok ⟨unk, .unknown⟩) :=
+  (strP_accept_iff _ (by decide) ⟨unk, .unknown⟩).mpr
+    ⟨_, rfl, by decide, Spec.V1.Line.unknown [] (.inl rfl) (by simp)⟩
 
 end C01
